@@ -15,10 +15,10 @@ BASE = dict(SIds='{0}', SNames='{"sa"}', TIds='{0}', TNames='{"ta"}', GIds='{0}'
             Clients='{1}', MaxId=3, Seeded='FALSE')
 GEN = {
     'streams': dict(consts=dict(BASE, SIds='{0,2}', SNames='{"sa","sb"}',
-                                Ops='{"create_stream","update_stream","delete_stream","restart"}'), depth=3, gen=(2, 3), transports=['tcp', 'http']),
+                                Ops='{"create_stream","update_stream","delete_stream","restart"}'), depth=3, gen=(2, 3), transports=['tcp', 'http', 'quic']),
     'topics': dict(consts=dict(BASE, TIds='{0,2}', TNames='{"ta","tb"}',
                                Ops='{"create_stream","create_topic","update_topic","delete_topic","purge_topic","create_partitions","delete_partitions","send","delete_stream","purge_stream","restart"}'),
-                   depth=3, gen=(1, 2), transports=['tcp', 'http']),
+                   depth=3, gen=(1, 2), transports=['tcp', 'http', 'quic']),
     'groups': dict(consts=dict(BASE, GIds='{0,2}', GNames='{"ga","gb"}', Clients='{1,2}',
                                Ops='{"create_stream","create_topic","create_group","delete_group","join","leave","disconnect","expire","delete_topic","delete_stream","restart"}'),
                    depth=4, gen=(1, 2), transports=['tcp']),
@@ -27,7 +27,7 @@ GEN = {
                                Ops='{"delete_topic","delete_group","leave","disconnect","expire","delete_stream","purge_topic","delete_partitions","create_partitions","send","restart","update_topic","join"}'),
                    depth=2, gen=(1, 2), transports=['tcp']),
     'users': dict(consts=dict(BASE, UNames='{"alice","bobby"}', Ops='{"create_user","update_user","delete_user","restart"}'),
-                  depth=3, gen=(2, 3), transports=['tcp', 'http']),
+                  depth=3, gen=(2, 3), transports=['tcp', 'http', 'quic']),
 }
 
 
